@@ -237,7 +237,10 @@ static void struct_case(long long c)
 	vh_sb_reset(&sb);
 	size_t i = 0;
 	int lines = 0;
-	const char *ws = " \t";
+	/* "arbitrary white space": the whole isspace() class of the C locale except the newline, which ends a line */
+	static const char ws_all[] = " \t \t \t\r\v\f";
+	bool odd_ws = false;
+#define WS_PICK() ({ char w_ = ws_all[vh_below(&r, sizeof(ws_all) - 1)]; if (w_ != ' ' && w_ != '\t') odd_ws = true; w_; })
 	while (i < nbytes || lines == 0) {
 		size_t inl = 1 + vh_below(&r, 20);
 		if (prefix) {
@@ -247,7 +250,7 @@ static void struct_case(long long c)
 		}
 		for (size_t k = 0; k < inl && i < nbytes; k++, i++) {
 			for (uint32_t w = vh_below(&r, 3); w; w--)
-				vh_sb_add(&sb, "%c", ws[vh_below(&r, 2)]);
+				vh_sb_add(&sb, "%c", WS_PICK());
 			if (vh_below(&r, 3) == 0)
 				vh_sb_add(&sb, "0x");
 			const char *digs = vh_below(&r, 2) ? "0123456789abcdef" : "0123456789ABCDEF";
@@ -255,7 +258,7 @@ static void struct_case(long long c)
 			vh_sb_add(&sb, "%c%c", digs[bytes[i] >> 4], digs2[bytes[i] & 15]);
 		}
 		for (uint32_t w = vh_below(&r, 3); w; w--)
-			vh_sb_add(&sb, "%c", ws[vh_below(&r, 2)]);
+			vh_sb_add(&sb, "%c", WS_PICK());
 		lines++;
 		if (i < nbytes || trailing_nl) {
 			if (vh_below(&r, 6) == 0)
@@ -286,6 +289,8 @@ static void struct_case(long long c)
 	}
 	vh_evaluations++;
 	VH_COUNT("structured_texts");
+	if (odd_ws)
+		VH_COUNT("structured_texts_with_cr_vt_ff_separators");
 	if (lines >= 2 && prefix) {
 		uint64_t h = 0x218;
 		for (size_t k = 0; k < len; k++)
